@@ -73,7 +73,7 @@ Theorem cow_no_lost_update :
   cvid (cleft (gl s)) = committed (gl s) /\ cvid (cright (gl s)) = committed (gl s)).
 Proof. exact (conj no_lost_update (conj commit_in_mutex_order copies_committed_when_idle)). Qed.
 
-(* (1) a lock_shared records at its invocation the number of releases that have returned (sneed); (2,3) the release that returns as number nret+1 committed the version with commit number nret+1; (4) a held snapshot has commit number >= sneed: it is that version or a later one; (5) the snapshot taken is the version committed at the load of readingLeft *)
+(* (1) a lock_shared records at its invocation the number of releases that have returned (sneed); (2,3) the release that returns as number nret+1 committed the version with commit number nret+1; (4) a held snapshot has commit number >= sneed: it is that version or a later one; (5) at its load of readingLeft a lock_shared is directed to the copy that holds the committed version; (6) the snapshot it takes (at the closing edge of the read window on that shared_ptr object) is the version that copy holds, published and at least as recent as sneed *)
 Theorem cow_publish_atomic :
   (forall t c g l g' l' es k s0 r,
   at_ l = Idle -> prog l = LockShared k s0 :: r -> nth_error (ssl l) s0 = Some None ->
@@ -91,9 +91,16 @@ Theorem cow_publish_atomic :
   (forall nw ns x pl progs s t c l g' l' es,
   R nw ns x pl progs s -> nth_error (thr s) t = Some l -> at_ l = S_ldr ->
   tstep t c (gl s) l = Some (g', l', es) ->
-  nth_error (ssl l') (sl l) = Some (Some (Snap (committed (gl s)) (need l) (content (heap (gl s) (committed (gl s)))))) /\
-  vseq (heap (gl s) (committed (gl s))) = ncommit (gl s) /\ (need l <= nret (gl s))%nat).
-Proof. exact (conj lock_shared_records (conj release_returns (conj release_return_step (conj publish_atomic lock_shared_takes_committed)))). Qed.
+  at_ l' = S_rb /\ rside l' = rl (gl s) /\ cvid (cp (gl s) (rl (gl s))) = committed (gl s) /\
+  vseq (heap (gl s) (committed (gl s))) = ncommit (gl s) /\ (need l <= nret (gl s))%nat) /\
+  (forall nw ns x pl progs s t c l g' l' es,
+  R nw ns x pl progs s -> nth_error (thr s) t = Some l -> at_ l = S_re ->
+  tstep t c (gl s) l = Some (g', l', es) ->
+  let v := cvid (cp (gl s) (rside l)) in
+  nth_error (ssl l') (sl l) = Some (Some (Snap v (need l) (content (heap (gl s) v)))) /\
+  (need l <= vseq (heap (gl s) v))%nat /\ (vseq (heap (gl s) v) <= ncommit (gl s))%nat /\
+  published (heap (gl s) v) = true /\ es = [E K_RD_END (O_SL (rside l)) 0]).
+Proof. exact (conj lock_shared_records (conj release_returns (conj release_return_step (conj publish_atomic (conj lock_shared_directed lock_shared_takes_committed))))). Qed.
 
 (* the step of cancel(): the outer mutex is released, the committed version, the applied edits and both copies are untouched, the private version (alive, unpublished, unshared) is destroyed - once: [races] counts double destructions - and no other version is touched *)
 Theorem cow_cancel :
@@ -122,12 +129,14 @@ Theorem cow_versions_ledger :
   forall v, (v < next (gl s))%nat -> (freed (heap (gl s) v) = false <-> v = committed (gl s))).
 Proof. exact (conj no_fault (conj version_accounted (conj refs_exact versions_at_rest))). Qed.
 
-(* the inner protocol: a reader window and a writer window are never open on the same copy of the inner lr_guarded *)
+(* the inner protocol: (1) a reader window (from the load of readingLeft to the counter decrement) and a writer window (from the load / last drain load to the store / unlock) are never open on the same copy of the inner lr_guarded; (2) in terms of observable events (harness/cow_extra.hpp): while an assignment's write window is open on one of the two shared_ptr objects, no read window (the copy made by lock_shared) is open on it - the wrapper's own overlap reports are K_FAULT events, excluded by cow_versions_ledger (1) *)
 Theorem cow_inner_exclusion :
   (forall nw ns x pl progs s r lr w lw y,
   R nw ns x pl progs s -> nth_error (thr s) r = Some lr -> nth_error (thr s) w = Some lw ->
-  wr_window lw y -> ~ rd_window lr y).
-Proof. exact inner_exclusion. Qed.
+  wr_window lw y -> ~ rd_window lr y) /\
+  (forall nw ns x pl progs s y,
+  R nw ns x pl progs s -> xwr (cp (gl s) y) = true -> xrd (cp (gl s) y) = 0 /\ nrd (cp (gl s) y) = 0).
+Proof. exact (conj inner_exclusion slot_windows_disjoint). Qed.
 
 (* ---------- non-vacuity: the hypotheses are satisfiable by concrete reachable states ---------- *)
 Definition ex_progs : list (list op) :=
@@ -139,7 +148,7 @@ Proof. exists sc. reflexivity. Qed.
 
 (* thread 1 takes a snapshot, thread 0 commits 10: the snapshot still holds the old version (3), which is
    not the committed one any more, and is alive *)
-Definition ex_s1 := run glob loc tstep ex_init (rep 1 5 ++ rep 0 22).
+Definition ex_s1 := run glob loc tstep ex_init (rep 1 7 ++ rep 0 26).
 Example ex_snapshot_across_commit :
   exists l sn, nth_error (thr ex_s1) 1 = Some l /\ In (Some sn) (ssl l) /\ sv sn <> committed (gl ex_s1) /\
                sval sn = 3 /\ content (heap (gl ex_s1) (committed (gl ex_s1))) = 10 /\
@@ -163,23 +172,31 @@ Proof. vm_compute. do 2 eexists. split; [reflexivity|]. split; [left; reflexivit
 (* pcs named in the hypotheses are reachable: SR_re, L_dec, W_ounlock, W_str, S_ldr, C_unlock *)
 Definition pc_at (s : sys glob loc) (t : nat) : option pc := option_map at_ (nth_error (thr s) t).
 Example ex_pcs :
-  pc_at (run glob loc tstep ex_init (rep 1 7)) 1 = Some SR_re /\
+  pc_at (run glob loc tstep ex_init (rep 1 9)) 1 = Some SR_re /\
   pc_at (run glob loc tstep ex_init (rep 0 8)) 0 = Some L_dec /\
-  pc_at (run glob loc tstep ex_init (rep 0 15)) 0 = Some W_str /\
-  pc_at (run glob loc tstep ex_init (rep 0 21)) 0 = Some W_ounlock /\
+  pc_at (run glob loc tstep ex_init (rep 0 17)) 0 = Some W_str /\
+  pc_at (run glob loc tstep ex_init (rep 0 25)) 0 = Some W_ounlock /\
   pc_at (run glob loc tstep ex_init (rep 1 3)) 1 = Some S_ldr /\
-  pc_at (run glob loc tstep ex_init (rep 0 37)) 0 = Some C_unlock.
+  pc_at (run glob loc tstep ex_init (rep 0 41)) 0 = Some C_unlock /\
+  pc_at (run glob loc tstep ex_init (rep 1 5)) 1 = Some S_re.
 Proof. vm_compute. repeat split. Qed.
 (* a writer window and a reader window exist (on different copies) *)
 Example ex_windows :
-  let s := run glob loc tstep ex_init (rep 0 15 ++ rep 1 4) in
+  let s := run glob loc tstep ex_init (rep 0 17 ++ rep 1 4) in
   exists lw lr, nth_error (thr s) 0 = Some lw /\ nth_error (thr s) 1 = Some lr /\
                 wr_window lw false /\ rd_window lr true.
-Proof. vm_compute. do 2 eexists. split; [reflexivity|]. split; [reflexivity|]. split; [left|]; split; reflexivity. Qed.
+Proof.
+  vm_compute. do 2 eexists. split; [reflexivity|]. split; [reflexivity|]. split.
+  - left. split; [right; right; reflexivity|reflexivity].
+  - split; reflexivity.
+Qed.
 (* a write handle released during stack unwinding (ReleaseUnw) commits like any other release *)
 Example ex_release_unwinding :
   let s0 := init 1 1 3 [] [[Lock 0; Write 0 10; ReleaseUnw 0]] in
-  pc_at (run glob loc tstep s0 (rep 0 15)) 0 = Some W_str /\
-  let s := run glob loc tstep s0 (rep 0 22) in
+  pc_at (run glob loc tstep s0 (rep 0 17)) 0 = Some W_str /\
+  let s := run glob loc tstep s0 (rep 0 26) in
   content (heap (gl s) (committed (gl s))) = 10 /\ applied (gl s) = [ESet 10] /\ nret (gl s) = 1%nat /\ omtx (gl s) = None.
 Proof. vm_compute. repeat split. Qed.
+(* an observable write window on a shared_ptr object of the inner lr_guarded is open (hypothesis of cow_inner_exclusion (2)) *)
+Example ex_slot_write_window : xwr (cp (gl (run glob loc tstep ex_init (rep 0 16))) false) = true.
+Proof. vm_compute. reflexivity. Qed.
